@@ -263,5 +263,6 @@ def check_transition(step, label='TR'):
                 t = atom.attrs.get('terminal')
                 conj.append((t == out[2]) if (t is None or out[2] is None) else (t == out[2]))
                 conj.append(atom is step.atom)
-        ctx.oblige('%s[%s]: state and output of one record == record automaton of the specification' % (label, tagname),
-                   Implies(cond, And(*conj)))
+        conj.append(step.how != 'break')          # no record ends the loop early (records after it would be lost)
+        ctx.oblige('%s[%s]: state and output of one record == record automaton of the specification; the loop goes on to the next '
+                   'record' % (label, tagname), Implies(cond, And(*conj)))
